@@ -113,6 +113,14 @@ func c03Check(r *vhlib.Run, data []byte, kind string, model bool) {
 	}
 }
 
+func catBytes(parts ...[]byte) []byte {
+	var out []byte
+	for _, p := range parts {
+		out = append(out, p...)
+	}
+	return out
+}
+
 func runC03(r *vhlib.Run) {
 	rng := r.Rng
 	n := 220
@@ -182,6 +190,41 @@ func runC03(r *vhlib.Run) {
 			d := append([]byte{}, base...)
 			d[3] = byte(v)
 			c03Check(r, d, "header-level", true)
+		}
+	}
+	// what may follow a complete stream: nothing, another stream, or bytes that are neither -
+	// NUL padding of every small length (with and without a further stream behind it), the
+	// beginnings of a header, the end-of-stream magic again; libbz2 restarted on those bytes
+	// is the judge
+	{
+		s1 := ref.BZCompress(bzPlain(rng, 200), 1+rng.Intn(9))
+		s2 := ref.BZCompress(bzPlain(rng, 200), 1+rng.Intn(9))
+		empty := ref.BZCompress(nil, 9)
+		for _, first := range [][]byte{s1, empty} {
+			for k := 1; k <= 9; k++ {
+				pad := make([]byte, k)
+				c03Check(r, catBytes(first, pad), "stream+nul-padding", true)
+				c03Check(r, catBytes(first, pad, s2), "stream+nul-padding+stream", true)
+			}
+			for _, tail := range [][]byte{{'B'}, []byte("BZ"), []byte("BZh"), []byte("BZh9"), {0x17, 0x72, 0x45, 0x38, 0x50, 0x90}, {0xff}, {0x42, 0x00}, {0x00, 0x42, 0x5a}} {
+				c03Check(r, catBytes(first, tail), "stream+tail", true)
+			}
+		}
+	}
+	// members with different block sizes, the larger ones later: a block of a later member
+	// may hold more symbols than any block of the first member could
+	{
+		nrep := 1
+		if !r.Quick() {
+			nrep = 5
+		}
+		for rep := 0; rep < nrep; rep++ {
+			lv1 := 1 + rng.Intn(2)
+			lv2 := lv1 + 2 + rng.Intn(8-lv1-1)
+			big := make([]byte, lv2*100000-rng.Intn(3000))
+			rng.Read(big)
+			d := catBytes(ref.BZCompress(bzPlain(rng, 300), lv1), ref.BZCompress(big, lv2), ref.BZCompress(bzPlain(rng, 300), lv1))
+			c03Check(r, d, "members-rising-level", false)
 		}
 	}
 	// targeted limit cases (100000-byte blocks): implementation + libbz2 always, model in thorough
@@ -307,6 +350,43 @@ func runC04(r *vhlib.Run) {
 	}
 	// multi-block input
 	c04Check(r, gen.Plain(rng, 250000), 1, "multi-block", !r.Quick())
+	// large-scale structure inside one block (levels 2..9, blocks of 130 KB and more):
+	// strictly periodic data (the BWT output is a handful of runs as long as the block),
+	// and a block whose first 64..190 KB recur later in the same block (two revisions of one
+	// record: rotations that agree over a very long stretch)
+	{
+		nper := 2
+		if !r.Quick() {
+			nper = 12
+		}
+		for i := 0; i < nper; i++ {
+			lv := 2 + rng.Intn(8)
+			period := vhlib.RandBytes(rng, 1+rng.Intn(6))
+			if i%2 == 0 {
+				period = []byte("ab")[:1+i/2%2]
+			}
+			size := 131072 + rng.Intn(lv*100000-131072+1)
+			d := bytes.Repeat(period, size/len(period)+1)[:size]
+			c04Check(r, d, lv, "periodic-block", false)
+		}
+		for i := 0; i < nper; i++ {
+			lv := 2 + rng.Intn(8)
+			plen := 65537 + rng.Intn(60000)
+			if 2*plen+64 > lv*100000 {
+				lv = 9
+			}
+			pfx := make([]byte, plen)
+			rng.Read(pfx)
+			last := byte(rng.Intn(256))
+			// P x s ... P y s with the bytes in front of the second P equal to the last byte
+			mid := vhlib.RandBytes(rng, rng.Intn(40))
+			d := catBytes(pfx, []byte{byte(200 + rng.Intn(50))}, mid, []byte{last}, pfx, []byte{byte(rng.Intn(100))}, vhlib.RandBytes(rng, rng.Intn(40)), []byte{last})
+			c04Check(r, d, lv, "long-repeat-in-block", false)
+			// and the other order of the two distinguishing bytes
+			d2 := catBytes(pfx, []byte{byte(rng.Intn(100))}, mid, []byte{last}, pfx, []byte{byte(200 + rng.Intn(50))}, []byte{last})
+			c04Check(r, d2, lv, "long-repeat-in-block", false)
+		}
+	}
 	// geometric byte distributions over 30-50 values: very skewed post-MTF symbol
 	// profiles, code lengths of 17-20 bits in large blocks
 	ngeo := 3
